@@ -90,8 +90,10 @@ def coq_makefile():
         open(stamp, "w").write(cur)
 
 
-def build_props(pid, timeout):
-    """(Re)compile props/<pid>.vo and everything it depends on. Returns (ok, log, n_print, closed, axioms)."""
+def build_props(pid, timeout, judge=None):
+    """(Re)compile props/<pid>.vo and everything it depends on. Returns (ok, log, n_print, closed, axioms).
+    The judge module (CDI.JudgeNN.judgeNN) is not a dependency of the props file: it is brought up to date separately,
+    so that the case shards are evaluated against the regenerated gen/*.v even when a proof no longer compiles."""
     target = "props/%s.vo" % pid
     with Lock(os.path.join(COQ, ".lock")):
         coq_makefile()
@@ -105,7 +107,7 @@ def build_props(pid, timeout):
         jm = re.match(r"CDI\.(\w+)\.", PROPS.get(pid, {}).get("judge", ""))
         if jm and os.path.exists(os.path.join(COQ, "theories", jm.group(1) + ".v")):
             targets.append("theories/%s.vo" % jm.group(1))
-        rc, out = run(["make", "-j16"] + targets, cwd=COQ, timeout=timeout)
+        rc, out = run(["make", "-j16", "-k"] + targets, cwd=COQ, timeout=timeout)
     src = open(os.path.join(COQ, "props", pid + ".v")).read()
     n_print = len(re.findall(r"^\s*Print Assumptions", src, re.M))
     closed = out.count("Closed under the global context")
@@ -328,7 +330,7 @@ def check(pid, conf, tier, seed, workdir, replay, t0):
         notes.append("translator failed: " + gen_log[-1500:])
 
     # -- theorems
-    proof_ok, coq_log, n_print, closed, axioms = build_props(pid, conf.get("coq_timeout", 1500))
+    proof_ok, coq_log, n_print, closed, axioms = build_props(pid, conf.get("coq_timeout", 1500), conf.get("judge"))
     proof_ok = proof_ok and gen_ok
     forbidden = forbidden_vernacular()
     if forbidden:
